@@ -36,6 +36,45 @@ Theorem C01_page_loop_terminates :
 Proof. exact page_loop_terminates. Qed.
 Print Assumptions C01_page_loop_terminates.
 
+(* The loop of makePage over the footnotes reported by the previous page
+   (pages.go 704-717, [report_loop]): it never reports more than it received, and
+   thanks to the `i != 0` guard the first one is always placed.  A blank page has
+   no other source of reported footnotes, so this is the third hypothesis of
+   C01_page_loop_terminates, proved for /repo's loop. *)
+Theorem C01_reported_footnotes_decrease : forall overflow n,
+  report_loop true overflow 0 n <= n /\ (0 < n -> report_loop true overflow 0 n < n).
+Proof. intros ov n. split; [apply report_loop_le | apply report_loop_first_placed]. Qed.
+Print Assumptions C01_reported_footnotes_decrease.
+
+(* ... so for the page maker whose blank pages run that loop only PROGRESS and
+   the bound on the footnotes are left as hypotheses *)
+Theorem C01_page_loop_terminates_report_loop :
+  forall (R : Type) (R_eqb : R -> R -> bool)
+         (layout_content : option R -> nat -> (option R * brk * nat) * (bool * bool))
+         (overflow : nat -> nat -> bool) (flags : nat -> bool * bool) (state_changed : nat -> bool)
+         (mu : option R -> nat) (F : nat),
+    (forall r fn r' b fn' fl, layout_content r fn = ((Some r', b, fn'), fl) -> mu (Some r') < mu r) ->
+    (forall r fn r' b fn' fl, layout_content r fn = ((r', b, fn'), fl) -> fn' <= F) ->
+    forall b right,
+    exists pm' pages,
+      make_all_pages R R_eqb layout_content (blank_of_report_loop true overflow flags) state_changed
+        (first_round_fuel R mu F) (initial_page_maker R b right) 0 0 0 [] = Ok (pm', pages) /\
+      1 <= length pages <= F + 2 * mu None + 4.
+Proof. exact page_loop_terminates_report_loop. Qed.
+Print Assumptions C01_page_loop_terminates_report_loop.
+
+(* the guard is necessary: without it a footnote that never fits the footnote
+   area is reported again by every page, and the page loop does not end *)
+Theorem C01_unguarded_report_loop_stuck : forall n, report_loop false (fun _ => true) 0 n = n.
+Proof. exact report_loop_unguarded_stuck. Qed.
+Print Assumptions C01_unguarded_report_loop_stuck.
+
+Example C01_unguarded_report_loop_no_termination :
+  make_all_pages nat Nat.eqb one_reported_footnote
+    (blank_of_report_loop false (fun _ _ => true) (fun _ => (false, false))) (fun _ => false)
+    2000 (initial_page_maker nat BAny true) 0 0 0 [] = OutOfFuel.
+Proof. exact unguarded_report_loop_no_termination. Qed.
+
 (* layoutDocument runs makeAllPages at most maxLoops times (8 by default),
    whatever the pages ask for (ContentChanged / PagesWanted) *)
 Theorem C01_repagination_bounded :
